@@ -64,6 +64,9 @@ enum Flavor {
     Plain,
     SmallBytes,
     SmallCycles,
+    /// epoch rewards so small that no finalised block reward can fund the assembler's cell:
+    /// every template's cellbase must stay without outputs
+    TinyReward,
 }
 
 /// Cycles of one transaction with a single always_success input group, as reported by the pool
@@ -237,6 +240,10 @@ pub fn run(args: &Args) -> i32 {
     r.c13.require("templates_with_txs", 1);
     r.c13.require("obs.late_fill.templates_after_uncle_or_proposal_update", 3);
     r.c13.require("obs.cpfp.templates_at_cycle_limit", 3);
+    if sessions >= 7 {
+        r.c13.require("obs.tiny_reward.templates_with_empty_cellbase", 3);
+    }
+    r.c13.require("obs.late_fill.uncle_offered_to_filled_template_with_proposals", 1);
     for rep in [&mut r.c11, &mut r.c12, &mut r.c13] {
         rep.assume("pool dump is taken through hook H5 under the pool's write lock; ckb-types is used to read transaction fields");
     }
@@ -273,6 +280,7 @@ fn run_session(rng: &mut Rng, si: u64, n_ops: u64, r: &mut Reports) {
     let flavor = match si % 4 {
         1 => Flavor::SmallBytes,
         3 => Flavor::SmallCycles,
+        _ if si % 8 == 6 => Flavor::TinyReward,
         _ => Flavor::Plain,
     };
     let mut xrng = rng.clone().fork(0x5ce0 + si);
@@ -282,6 +290,12 @@ fn run_session(rng: &mut Rng, si: u64, n_ops: u64, r: &mut Reports) {
     };
     match flavor {
         Flavor::Plain => {}
+        Flavor::TinyReward => {
+            // about 20 CKB of primary and 2 CKB of secondary issuance per block; the assembler's
+            // cell (42 bytes) needs 42 CKB; fees in these sessions are a few thousand shannons
+            params.primary_epoch_reward_ckb = Some(20 * match params.epoch { EpochMode::Permanent { epoch_len, .. } => epoch_len, _ => 5 });
+            params.secondary_epoch_reward_ckb = Some(10);
+        }
         Flavor::SmallBytes => {
             // header + cellbase + extension + two uncles + proposals take up to ~1500 bytes; the
             // rest holds three to six small transactions
@@ -331,7 +345,7 @@ fn run_session(rng: &mut Rng, si: u64, n_ops: u64, r: &mut Reports) {
         ..Default::default()
     };
     match flavor {
-        Flavor::Plain => {}
+        Flavor::Plain | Flavor::TinyReward => {}
         Flavor::SmallBytes => {
             // the builder's own blocks must respect the small limit as well
             tcfg.max_commit_bytes = (max_block_bytes as usize).saturating_sub(1_500);
@@ -1636,6 +1650,13 @@ impl Sess {
         let block = builder::seal(&self.gi.consensus, block);
         r.c13.eval();
         r.c13.count("templates_verified");
+        if self.flavor == Flavor::TinyReward {
+            let finalises = block.number() > self.gi.consensus.finalization_delay_length();
+            let empty = block.transactions().first().map(|cb| cb.outputs().is_empty()).unwrap_or(false);
+            if finalises {
+                r.c13.count(if empty { "obs.tiny_reward.templates_with_empty_cellbase" } else { "obs.tiny_reward.templates_with_cellbase_output" });
+            }
+        }
         if n_txs > 0 {
             r.c13.count("templates_with_txs");
         }
@@ -2053,7 +2074,7 @@ impl Sess {
         match self.flavor {
             Flavor::SmallBytes => self.op_late_fill(r),
             Flavor::SmallCycles => self.op_cpfp(r),
-            Flavor::Plain => self.op_template(r),
+            Flavor::Plain | Flavor::TinyReward => self.op_template(r),
         }
     }
 
@@ -2349,6 +2370,27 @@ impl Sess {
             Ok(false) => return true,
             Ok(true) => {}
         }
+        // in every second scenario the template already carries a good number of proposals (ids
+        // of pending transactions) when the late transactions fill it
+        let mut pending_before = 0usize;
+        if self.xrng.chance(600, 1000) {
+            let want = (cells.len() - k - 2).min(10 + self.xrng.usize_below(9));
+            for c in cells.iter().skip(k).take(want) {
+                let rate = self.min_fee_rate + 50 + self.xrng.below(300);
+                let Some(t) = self.simple_tx(std::slice::from_ref(c), rate, 0, &[], 0) else { continue };
+                self.tg.keep.insert(op_key(&c.0));
+                let Some(d) = self.quiesce() else { return false };
+                match self.submit_tx(r, &t, &d, "(pending before the late fill)") {
+                    None => return false,
+                    Some(true) => pending_before += 1,
+                    Some(false) => {}
+                }
+            }
+            self.settle_template();
+            if self.check_template(r, 0, true).is_none() {
+                return false;
+            }
+        }
         // late arrival: the transactions enter the pool as already proposed
         let mut proposed_on_arrival = 0;
         for t in &txs {
@@ -2390,6 +2432,9 @@ impl Sess {
                 }
                 self.ops.push(format!("sibling {} of tip #{} delivered (uncle candidate)", hx(&h(&sib.hash())), tipb.number()));
                 r.c13.count("ops.uncle_candidate_after_fill");
+                if filled && pending_before >= 5 {
+                    r.c13.count("obs.late_fill.uncle_offered_to_filled_template_with_proposals");
+                }
             } else {
                 for _ in 0..(1 + self.xrng.below(3)) {
                     if !self.op_submit(r, false) {
